@@ -408,6 +408,9 @@ def traceOk (cs need : Nat) : Nat → List ReadEv → Bool
     decide (e.req ≤ cs) && decide (e.req + b ≤ need) && decide (e.got ≤ e.req) &&
       decide (e.bufAfter = b + e.got) && traceOk cs need e.bufAfter es
 
+/-- Largest read request of a trace. -/
+def maxReq (tr : List ReadEv) : Nat := tr.foldl (fun a e => Nat.max a e.req) 0
+
 /-- Outcome of a complete, admissible frame with payload `p`. -/
 def okOf {Msg : Type} (dec : Bytes → Option Msg) (p : Bytes) : FrameRes Msg :=
   match dec p with
